@@ -135,6 +135,9 @@ type rtAtt struct {
 	dlvAt    time.Duration
 	closed   bool
 	closedAt time.Duration
+	// prevUsable: when this request arrived, the host of the operation's previous request
+	// still had an open connection that had carried requests before (one the pool holds)
+	prevUsable bool
 }
 
 type rtCall struct {
@@ -603,12 +606,22 @@ func runRetry(e *Env) {
 		}
 		pending = append(pending, rtArrival{sc: sc, rec: rec, token: token, cons: cons, batch: rq.Header.Opcode == cqlspec.OpBatch})
 	}
+	served := map[*node.SConn]bool{} // connections that have carried a request of the workload
 	handle := func(ar rtArrival) {
 		sc, rec, token, cons := ar.sc, ar.rec, ar.token, ar.cons
 		op := st.ops[token]
 		now := k.SimTime()
 		st.mu.Lock()
 		att := &rtAtt{idx: len(op.atts), host: sc.Host.Addr, nonce: sc.Host.Nonce, sc: sc, step: rec.Step, at: now, stream: rec.Stream, cons: cons}
+		if n := len(op.atts); n > 0 {
+			prev := op.atts[n-1]
+			for _, c := range cl.SConns() {
+				if c.Host.Addr == prev.host && served[c] && !c.Dead && !c.C.ClientClosed() && !c.C.ServerClosed() {
+					att.prevUsable = true
+				}
+			}
+		}
+		served[sc] = true
 		// overlap: each execution of a query is sequential, so the number of requests of
 		// one query that are certainly still awaited bounds the number of executions
 		inflight := 0
@@ -1414,6 +1427,9 @@ func (st *rtState) relaxedWalk(op *rtOp) {
 			return
 		case !next && p1 != p0 && st.exact:
 			st.viol(op, "retry-on-wrong-host", "%s: attempt #%d went to %s after a Retry (same host) decision for attempt #%d on %s", op.token, i+1, A[i+1].host, i, A[i].host)
+			return
+		case p1 != p0 && !next && A[i+1].prevUsable:
+			st.viol(op, "retry-on-wrong-host", "%s: attempt #%d went to %s after a Retry (same host) decision for attempt #%d on %s, although %s still had an open pooled connection", op.token, i+1, A[i+1].host, i, A[i].host, A[i].host)
 			return
 		case p1 != p0 && !next:
 			k.Probe("host-skipped-for-want-of-connection")
